@@ -204,20 +204,29 @@ def frag_taskgraph(repo):
     # ---- Task.is_ready_to_run
     f = py2v.find_func(T, "is_ready_to_run")
     b = clean(f.body)
-    if len(b) != 3 or not all(isinstance(x, t) for x, t in zip(b, (ast.Assign, ast.Assign, ast.Return))):
+    if len(b) != 4 or not all(isinstance(x, t) for x, t in zip(b, (ast.Assign, ast.Assign, ast.If, ast.Return))):
         die(f, "is_ready_to_run: unexpected statements")
-    if src(b[0]) != "parents_completion_status = [parent_task.is_complete() for parent_task in task_graph.get_parents(self)]":
-        die(b[0], "is_ready_to_run: parents' completion status is computed differently")
-    if src(b[1].targets[0]) != "parents_complete":
-        die(b[1], "is_ready_to_run: second statement")
-    tbl = {"self.terminal": "terminal", "self.state": "state"}
+    if src(b[0]) != "parents = task_graph.get_parents(self)":
+        die(b[0], "is_ready_to_run: the parents are obtained differently")
+    if src(b[1]) != "parents_completion_status = [parent_task.is_complete() for parent_task in parents]":
+        die(b[1], "is_ready_to_run: parents' completion status is computed differently")
+    br = b[2]
+    tb, eb_ = clean(br.body), clean(br.orelse)
+    if not (src(br.test) == "self.terminal" and len(tb) == 1 and len(eb_) == 1 and isinstance(tb[0], ast.Assign)
+            and isinstance(eb_[0], ast.Assign) and src(tb[0].targets[0]) == "parents_complete"
+            and src(eb_[0].targets[0]) == "parents_complete"):
+        die(br, "is_ready_to_run: the terminal / regular case distinction changed")
+    tbl = {"self.terminal": "terminal", "self.state": "state", "parent_task.is_complete()": "parent_task.complete"}
     tr = mk_tr({"terminal": ("terminal", "bool"), "state": ("state", "TaskState")},
-               list_vars={"parents_completion_status": ("parent_statuses", "bool")})
-    pc = texpr(tr, subst(b[1].value, tbl, ["self.terminal"]), "bool")
+               extra_attrs={("A", "state"): ("state_of", "TaskState"), ("A", "complete"): ("complete_of", "bool")},
+               list_vars={"parents_completion_status": ("(map complete_of parents)", "bool"), "parents": ("parents", "A")})
+    pc_t = texpr(tr, subst(tb[0].value, tbl), "bool")
+    pc_e = texpr(tr, subst(eb_[0].value, tbl), "bool")
     tr.vars["parents_complete"] = ("parents_complete", "bool")
-    ret = texpr(tr, subst(b[2].value, tbl, ["self.state"]), "bool")
-    out.append("Definition is_ready_to_run (terminal : bool) (parent_statuses : list bool) (state : task_state) : bool :=\n"
-               "  let parents_complete := %s in\n  %s.\n" % (pc, ret))
+    ret = texpr(tr, subst(b[3].value, tbl, ["self.state"]), "bool")
+    out.append("Definition is_ready_to_run {A : Type} (complete_of : A -> bool) (state_of : A -> task_state)\n"
+               "    (terminal : bool) (parents : list A) (state : task_state) : bool :=\n"
+               "  let parents_complete := (if terminal then %s else %s) in\n  %s.\n" % (pc_t, pc_e, ret))
 
     # ---- Task.remaining_time
     f = py2v.find_func(T, "remaining_time")
